@@ -228,6 +228,26 @@ Section C05span.
   Proof. exact (solve_start_before_lags_rejected num sub absf ltb isfin zero ev before after k span d o start end_ s a b). Qed.
 End C05span.
 
+(* defaults that do not exist (no more periods than lags / leads): IndexError before anything is solved, whatever the span type *)
+Section C05defaults.
+  Variable num : Type.
+  Variables (sub : num -> num -> num) (absf : num -> num) (ltb : num -> num -> bool)
+            (isfin : num -> bool) (zero : num).
+  Variables (ev before after : hook num).
+  Variable L : Type.
+  Variable locate : L -> locres.
+  Notation solve_M := (solve_M num sub absf ltb isfin zero ev before after L locate).
+  Theorem C05_solve_default_start_beyond_span d o span end_ s :
+    min_iter o <= max_iter o -> span <> [] -> (length span <= lags d)%nat -> bad_label L locate end_ = false ->
+    solve_M d o span None end_ s = (s, Raise IndexError).
+  Proof. exact (solve_default_start_beyond_span num sub absf ltb isfin zero ev before after L locate d o span end_ s). Qed.
+  Theorem C05_solve_default_end_beyond_span d o span start a s :
+    min_iter o <= max_iter o -> resolves_start L d span start a -> (length span <= leads d)%nat ->
+    bad_label L locate start = false ->
+    solve_M d o span start None s = (s, Raise IndexError).
+  Proof. exact (solve_default_end_beyond_span num sub absf ltb isfin zero ev before after L locate d o span start a s). Qed.
+End C05defaults.
+
 (* the frame premise holds for every scripted model whose script makes no absolute write *)
 Theorem C05_scripted_oracles_frame n sc : scripts_local sc = true ->
   hook_frame float n (s_ev n sc) /\ hook_frame float n (s_before n sc) /\ hook_frame float n (s_after n sc).
@@ -266,6 +286,9 @@ Print Assumptions C05_solve_every_span.
 Print Assumptions C05_solve_unknown_start_every_span.
 Print Assumptions C05_solve_unknown_end_every_span.
 Print Assumptions C05_solve_start_before_lags_rejected.
+Print Assumptions C05_solve_default_start_beyond_span.
+Print Assumptions C05_solve_default_end_beyond_span.
+Print Assumptions exS_defaults_beyond_span.
 Print Assumptions exS_every_span_kind.
 Print Assumptions exS_repeated_label.
 Print Assumptions exS_start_before_lags.
